@@ -798,10 +798,11 @@ type c19Ctx struct {
 }
 
 type imgEntry struct {
-	once    sync.Once
-	class   string
-	bytes   []byte
-	errLine int // parse_error: the line the in-process parser reports for the comment-free form
+	once          sync.Once
+	class         string
+	bytes         []byte
+	errLine       int  // parse_error: the line the in-process parser reports for the comment-free form
+	writerDiffers bool // flat: the file written in-process differs from the machine code in memory
 }
 
 // imageOf assembles the comment-free form through the in-process API (native worker).
@@ -816,10 +817,14 @@ func (c *c19Ctx) imageOf(plain []byte) (string, []byte) {
 	c.imgMu.Unlock()
 	e.once.Do(func() {
 		spec := &RunSpec{Variant: "native", ProgKeys: []string{key}}
-		spec.Script = Script{Sources: []string{base64.StdEncoding.EncodeToString(plain)}, Paths: []string{"image.out"}, Ops: []Op{{Op: "parse", P: 0, T: 0}, {Op: "exec", T: 0, D: 0}}}
-		var img []byte
+		spec.Script = Script{Sources: []string{base64.StdEncoding.EncodeToString(plain)}, Paths: []string{"image.out"}, Ops: []Op{{Op: "parse", P: 0, T: 0}, {Op: "exec", T: 0, D: 0, Kind: "mc"}}}
+		var img, mc []byte
+		haveMc := false
 		res := c.sim.runSpecKeep(spec, func(dir string, sc *Script) {
 			img, _ = os.ReadFile(filepath.Join(dir, "image.out"))
+			if b, err := os.ReadFile(filepath.Join(dir, "image.out.mc")); err == nil {
+				mc, haveMc = b, true
+			}
 		})
 		o, _ := refOutcomeOf(res)
 		switch {
@@ -836,6 +841,12 @@ func (c *c19Ctx) imageOf(plain []byte) (string, []byte) {
 			e.class, e.bytes = "ok", img
 			if shaHex(img) != o.Sha {
 				infraFail("image read-back mismatch")
+			}
+			// flat format: "the assembled bytes" are the machine code; if the in-process file writer
+			// does not reproduce them, the machine code is the reference (the CLI run will then differ)
+			if haveMc && !isCoffSource(plain) && !bytes.Equal(mc, img) {
+				e.bytes = mc
+				e.writerDiffers = true
 			}
 		default:
 			e.class = "abnormal:" + o.ParseClass + "/" + o.ExecClass
@@ -1125,3 +1136,5 @@ func parseTrace(log string, wp *worldPaths) []string {
 	}
 	return ev
 }
+
+func isCoffSource(src []byte) bool { return bytes.Contains(src, []byte("WCOFF")) }
